@@ -1,4 +1,5 @@
 SPECIFICATION Spec
+CONSTANT JetRows <- CoreJets
 CONSTANT CmrN = 8
 CONSTANT Mode = "programs"
 CONSTANT N = 5
